@@ -43,6 +43,18 @@ SINGLE_CONSTRUCT = {
     # type names that end in "None" / look like typing constructs in optional / oneof positions
     "names_ending_in_none.proto": _pkg("names_ending_in_none", "message ResultOrNone { int32 a = 1; int32 mk20029 = 20029; }\nenum LevelNone { LN_ZERO = 0; LN_ONE = 1; LN_MK = 20030; }\n"
                                        "message M { optional ResultOrNone r = 1; optional LevelNone l = 2; oneof pick { ResultOrNone x = 3; LevelNone y = 4; } repeated LevelNone rl = 5; int32 mk20031 = 20031; }\n"),
+    # two oneofs of one message whose names differ only in casing / underscores
+    "oneof_colliding_names.proto": _pkg("oneof_colliding_names", "message M { oneof kind { int32 a = 1; } oneof Kind { string b = 2; } oneof key_v1 { int32 c = 3; int32 c2 = 5; } "
+                                        "oneof keyV1 { string d = 4; bool d2 = 6; } oneof from_hop { int32 e = 7; } oneof fromHop { int32 f = 8; } int32 mk20032 = 20032; }\n"),
+    # a package that holds nothing but enums, used from another package
+    "only_enums.proto": _pkg("only_enums", "enum E { E_ZERO = 0; E_ONE = 1; E_NEG = -2; E_MK = 20033; }\nenum F { F_ZERO = 0; F_MK = 20034; }\n"),
+    "uses_only_enums.proto": _pkg("uses_only_enums", "message M { only_enums.E e = 1; repeated only_enums.E r = 2; optional only_enums.F o = 3; map<string, only_enums.E> m = 4; "
+                                  "oneof pick { only_enums.E pe = 5; int32 pi = 6; } int32 mk20035 = 20035; }\n", 'import "only_enums.proto";\n'),
+    # a type reached only through `import public` of an imported file; the re-exporting package is a dotted prefix of the type's
+    "pub_c.proto": _pkg("geo.shapes", "message Point { int32 x = 1; int32 mk20036 = 20036; }\nenum Unit { UNIT_ZERO = 0; UNIT_MK = 20037; }\n"),
+    "pub_b.proto": _pkg("geo", "message Facade { int32 v = 1; int32 mk20038 = 20038; }\n", 'import public "pub_c.proto";\n'),
+    "pub_a.proto": _pkg("app", "message Route { geo.shapes.Point p = 1; repeated geo.shapes.Point r = 2; map<string, geo.shapes.Point> m = 3; geo.shapes.Unit u = 4; geo.Facade f = 5; int32 mk20039 = 20039; }\n"
+                        "service Nav { rpc Go (geo.shapes.Point) returns (geo.Facade); }\n", 'import "pub_b.proto";\n'),
     "oneof_nested_msg.proto": _pkg("oneof_nested_msg", "message M { message In { oneof a { int32 x = 1; } oneof b { int32 y = 2; } int32 mk20024 = 20024; } In in_ = 1; int32 mk20025 = 20025; }\n"),
 }
 
